@@ -360,6 +360,11 @@ func explore(p *propCfg, worker, dir string, seed uint64, nW int, budgetMs int, 
 			if dump {
 				args = append(args, "-dump-hashes")
 			}
+			for _, e := range extraEnv {
+				if e == "VERIF_REVERSE=1" {
+					args = append(args, "-reverse")
+				}
+			}
 			cmd := exec.Command(worker, args...)
 			cmd.Env = workerEnv(dir, w, extraEnv...)
 			var buf bytes.Buffer
